@@ -393,6 +393,7 @@ class Interp:
         self.fi = fi
         self.P = program
         self.m = program.model
+        self._exc_qual = {}   # short name of a caught class -> qualname
         user_inline = inline or (lambda f: False)
         self.inline = lambda f: user_inline(f) or is_unknown_helper(f)
         self.loop_policy = loop_policy or (lambda node: "once")
@@ -597,9 +598,30 @@ class Interp:
                 and node.func.id == "isinstance" and len(node.args) == 2:
             t = self.eval(node.args[0], env)
             c = src(node.args[1]).split(".")[-1]
+            known = self._caught_isinstance(t, node.args[1])
+            if known is not None:
+                return known
             return self.decide(("isinstance", t, c))
         t = self.eval(node, env)
         return self.term_truth(t)
+
+    def _caught_isinstance(self, t, cnode):
+        """isinstance(e, C) for a caught exception whose class is known."""
+        if not (isinstance(t, tuple) and len(t) == 2 and t[0] == "fresh"
+                and str(t[1]).startswith("exc:caught:")):
+            return None
+        q = self._exc_qual.get(str(t[1])[11:])
+        if q is None:
+            return None
+        types = cnode.elts if isinstance(cnode, ast.Tuple) else [cnode]
+        res = False
+        for tn in types:
+            cq = self.m.resolve(self.fstack[-1].module, tn)
+            if cq is None or cq not in self.m.classes:
+                return None
+            if self.m.is_subclass(q, cq):
+                res = True
+        return res
 
     def _prefix_suffix_atom(self, t):
         """x.startswith(c) / x.endswith(c) with a constant c and no position
@@ -1195,7 +1217,7 @@ class Interp:
         f = node.func
         if len(node.args) == 1 and not node.keywords and isinstance(
                 node.args[0], (ast.GeneratorExp, ast.ListComp)) \
-                and len(node.args[0].generators) == 1:
+                and len(node.args[0].generators) >= 1:
             if isinstance(f, ast.Name) and f.id == "list" \
                     and "list" not in env:
                 # list(f(x) for x in xs) is the list comprehension
@@ -1245,6 +1267,13 @@ class Interp:
             if len(cs) == 1 and cs[0].kind == "repo" \
                     and cs[0].how == "super":
                 ft = ("global", cs[0].fn.qualname)
+                args = (self.eval(ast.Name(id=fi.params[0], ctx=ast.Load()),
+                                  env),) + tuple(args)
+            elif not cs and fi.cls is not None and len(fi.cls.bases) == 1 \
+                    and fi.cls.bases[0] not in self.m.classes \
+                    and fi.cls.bases[0]:
+                # the only base is an external class (dict, Exception, ...)
+                ft = ("global", "%s.%s" % (fi.cls.bases[0], f.attr))
                 args = (self.eval(ast.Name(id=fi.params[0], ctx=ast.Load()),
                                   env),) + tuple(args)
         if ft is None:
@@ -1910,6 +1939,25 @@ class Interp:
         at all); otherwise the handler's own class names."""
         names = self._handler_names(h)
         node = eff[2] if len(eff) > 2 else None
+        if h.type is not None:
+            # without a known escape set: every repository exception class
+            # the handler catches is a possible arrival of its own (so that
+            # a merged handler dispatching with isinstance and separate
+            # handlers observe the same classes); external classes by name
+            types = h.type.elts if isinstance(h.type, ast.Tuple) \
+                else [h.type]
+            wide = []
+            for t in types:
+                q = self.m.resolve(self.fstack[-1].module, t)
+                if q in self.m.classes:
+                    subs = sorted(k for k in self.m.classes
+                                  if self.m.is_subclass(k, q))
+                    for k in subs:
+                        self._exc_qual[k.split(".")[-1]] = k
+                        wide.append(k.split(".")[-1])
+                else:
+                    wide.append(src(t).split(".")[-1])
+            names = wide
         if h.type is None or not isinstance(node, ast.Call):
             return names
         try:
@@ -1932,11 +1980,12 @@ class Interp:
                 return names
             caught = sorted(e for e in esc
                             if any(ef.is_sub(e, q) for q in hq))
+            for e in caught:
+                if e in self.m.classes:
+                    self._exc_qual[e.split(".")[-1]] = e
         except AnalysisError:
             return names
-        if not caught:
-            return []
-        return ["+".join(c.split(".")[-1] for c in caught)]
+        return [c.split(".")[-1] for c in caught]
 
     def _handler_names(self, h):
         if h.type is None:
@@ -1967,17 +2016,27 @@ class Interp:
                         raise _Raise("propagated", (eff[1],), s)
                     continue
                 if eff[0] == "call":
+                    # one observation per call: which class arrives (each
+                    # goes to the first handler that catches it), or none --
+                    # so merged and split handlers observe the same thing
+                    dom = []
                     for h in st.handlers:
                         for cls in self._catch_labels(eff, h):
-                            if self.decide(("raises", eff[1], cls)):
-                                # the statement did not complete: undo its
-                                # bindings and the effects after the call
-                                env.clear()
-                                env.update(saved)
-                                del self.path.effects[before + j + 1:]
-                                r_ = _Raise("caught:" + cls, (eff[1],), s)
-                                r_.handler = h
-                                raise r_
+                            if cls not in [d[0] for d in dom]:
+                                dom.append((cls, h))
+                    if not dom:
+                        continue
+                    v = self.decide(("raises", eff[1]),
+                                    domain=tuple(d[0] for d in dom) + (False,))
+                    if v is not False:
+                        # the statement did not complete: undo its bindings
+                        # and the effects after the call
+                        env.clear()
+                        env.update(saved)
+                        del self.path.effects[before + j + 1:]
+                        r_ = _Raise("caught:" + v, (eff[1],), s)
+                        r_.handler = dict(dom)[v]
+                        raise r_
             # a subscript load may raise KeyError/IndexError into a handler
             # that names it
             if not propagate and any(
